@@ -34,6 +34,8 @@ def tasks(tier):
             t.append(('conc_ratio', np_ + nb))
     t.append(('conc_short',))
     t.append(('float_targets', 7))
+    from contracts import rounding_placement as RP
+    t += [('rounding_placement',) + x for x in RP.tasks(tier, PID)]
     toks = 'thorough' if tier == 'thorough' else 'quick'
     for chunk in range(16):
         t.append(('conc_reject_bounded', toks, chunk, 16))
@@ -42,6 +44,11 @@ def tasks(tier):
 
 def run(kind, *args):
     return globals()['run_' + kind](*args)
+
+
+def run_rounding_placement(*args):
+    from contracts import rounding_placement as RP
+    return RP.run(PID, *args)
 
 
 def run_float_targets(n):
